@@ -58,6 +58,7 @@ type batOpts struct {
 	busyFDs     []int64 // how long a listener keeps the loop busy inside flush-done (v2)
 	busyAudits  []int64 // ... inside the audit events
 	busyCaps    []int64 // how long the rate limiter's GiveMe takes
+	reactPauses []int64 // how many resume events are answered by a Pause() from a listener's goroutine
 }
 
 func defaultBatOpts() batOpts {
@@ -73,7 +74,7 @@ func defaultBatOpts() batOpts {
 		pauseP: 0.05, flushP: 0.08, probeP: 0.15, capChangeP: 0.05, rejectP: 0.06, holdP: 0.0,
 		costShiftP: 0.0, stopMidP: 0.15, startLateP: 0.15, setterP: 0.02, horizonMin: 0,
 		busyFDs: []int64{0, 0, 0, 0, 0, 3*MS + 1, 40*MS + 7, 160*MS + 3}, busyAudits: []int64{0, 0, 0, 0, 0, 5*MS + 1, 60*MS + 3},
-		busyCaps: []int64{0, 0, 0, 0, 0, 0, 2*MS + 1, 45*MS + 5},
+		busyCaps: []int64{0, 0, 0, 0, 0, 0, 2*MS + 1, 45*MS + 5}, reactPauses: []int64{0, 0, 0, 0, 0, 0, 1, 2},
 	}
 }
 
@@ -112,6 +113,9 @@ func genRandomBat(rng *rand.Rand, name string, o batOpts) *Scenario {
 	}
 	if len(o.busyCaps) > 0 && sc.Limiter {
 		sc.BusyCap = pick(rng, o.busyCaps...)
+	}
+	if len(o.reactPauses) > 0 {
+		sc.ReactPause = pick(rng, o.reactPauses...)
 	}
 	effMaxOp := dfl(sc.MaxOp, 60*SEC)
 	effFlush := dfl(sc.Flush, 100*MS)
@@ -336,7 +340,7 @@ func genRandomBat(rng *rand.Rand, name string, o batOpts) *Scenario {
 		t += 17
 		steps = append(steps, Step{At: t, Kind: "stop"})
 	}
-	t += dfl(sc.Pause, 500*MS) + 5*MS + 3 + 4*(sc.BusyFD+sc.BusyAudit+sc.BusyCap)
+	t += (1+sc.ReactPause)*dfl(sc.Pause, 500*MS) + 5*MS + 3 + 4*(sc.BusyFD+sc.BusyAudit+sc.BusyCap)
 	steps = append(steps, Step{At: t, Kind: "probe"})
 	sort.SliceStable(steps, func(i, j int) bool { return steps[i].At < steps[j].At })
 	sc.Steps = steps
@@ -487,6 +491,7 @@ func genFamily(rng *rand.Rand, family string, idx int, o batOpts) *Scenario {
 		o.stopMidP = 0.4
 	case "pauses":
 		o.pauses = []int64{0, -7 * MS, 1 * MS, 3 * MS, 250 * MS, 2 * SEC}
+		o.reactPauses = []int64{0, 0, 1, 2, 3}
 		o.pauseP = 0.5
 		o.coincideP = 0.2
 		o.stopMidP = 0.3
